@@ -78,6 +78,8 @@ fn remove_old_files(dest: &Path, modified: &HashSet<PathBuf>) -> Result<()> {
                 .unwrap_or(false)
         });
     for e in to_delete {
+        #[cfg(libninja_verif)]
+        hir::verif_hook::before_remove();
         fs::remove_file(&e)?;
         eprintln!("{}: Remove unused file.", e.display());
     }
